@@ -48,8 +48,18 @@ def _pick(rng, weights):
     return k
 
 
-def targeted_query(rng, model, opts):
+def targeted_query(rng, model, opts, top=True):
     """A query with a decent chance of matching some-but-not-all points."""
+    if top and model.points and rng.random() < 0.04:
+        # a test function that answers with a truthy / falsy non-bool; only on its own or under ~ (see qast._t_as_is)
+        p = rng.choice(model.points)
+        if p.fields and rng.random() < 0.6:
+            q = ("test", "fields", (rng.choice(sorted(p.fields)),), "as_is", ())
+        elif p.tags:
+            q = ("test", "tags", (rng.choice(sorted(p.tags)),), rng.choice(["as_is", "length"]), ())
+        else:
+            q = ("test", "measurement", (), "length", ())
+        return ("not", q) if rng.random() < 0.3 else q
     if model.points and rng.random() < 0.5:
         p = rng.choice(model.points)
         c = rng.randrange(6)
@@ -66,11 +76,11 @@ def targeted_query(rng, model, opts):
             op = rng.choice(["==", "!="]) if v is None else rng.choice(list(qast.OPS))
             return ("cmp", "fields", (k,), op, v)
         if c == 4:
-            a = targeted_query(rng, model, opts)
+            a = targeted_query(rng, model, opts, top=False)
             b = gen.gen_query(rng, 1, opts)
             return (rng.choice(["and", "or"]), a, b)
         if c == 5:
-            return ("not", targeted_query(rng, model, opts))
+            return ("not", targeted_query(rng, model, opts, top=False))
     return gen.gen_query(rng, rng.choice([0, 1, 2, 3]), opts)
 
 
